@@ -51,7 +51,9 @@ def run(check: Check) -> None:
     w1_operand_order(check)
     loaders.loader(check, "Antecedent.load")
     h1_hedge_storage(check)
-    wiring.p9_antecedent(check)
+    from .antecedent_sem import antecedent_semantics
+
+    antecedent_semantics(check, rule="P9")  # Antecedent.activation_degree interpreted on model expression trees with symbolic leaves
     wiring.p3_weight(check)
     wiring.p10_activation_degree_lookup(check)  # "for an output variable, the aggregated activation of that term"
     for cls in c08.ACTIVATIONS:  # "the connectives are computed with the rule block's conjunction and disjunction operators"
@@ -152,6 +154,8 @@ def x1_format_infix(check: Check) -> None:
     ops = sorted(e.name for e in function_factory(p) if e.kind == "Operator")
     seen: dict[str, Any] = {}
 
+    import re as _re
+
     def sub(ex_, e, recv, args, kw):
         order = ["pattern", "repl", "string", "count", "flags"]
         a = dict(zip(order, args))
@@ -159,24 +163,25 @@ def x1_format_infix(check: Check) -> None:
         seen.setdefault("patterns", []).append(a.get("pattern"))
         return Opaque("text")
 
-    def join(ex_, e, recv, args, kw):
-        return ("joined", recv, tuple(ex_.iterate(args[0], e)))
-
     def operators(ex_, e, recv, args, kw):
         return {name: Opaque("element") for name in ops}
 
-    hooks = {"method:sub": sub, "method:join": join, "method:operators": operators, "method:escape": lambda ex_, e, recv, args, kw: ("escaped", args[0]),
-             "method:compile": lambda ex_, e, recv, args, kw: Opaque("pattern")}
+    def escape(ex_, e, recv, args, kw):
+        if not isinstance(args[0], str):
+            raise Unknown("Function.format_infix: re.escape of something that is not a symbol")
+        return _re.escape(args[0])
+
+    hooks = {"method:sub": sub, "method:operators": operators, "method:escape": escape, "method:compile": lambda ex_, e, recv, args, kw: args[0]}
     ex = AbsExec(fn.qualname, hooks)
+    ex.concrete_strings = True  # the pattern is built as the string it is
     params = [a.arg for a in node.args.args]
     rule_ns = MObj("class", {"AND": "and", "OR": "or", "IS": "is", "IF": "if", "THEN": "then", "WITH": "with"})
-    env: dict[str, Any] = {params[0]: Opaque("cls"), "re": Opaque("re"), "Rule": rule_ns}
+    ex.globals = {"re": Opaque("re"), "Rule": rule_ns}
+    env: dict[str, Any] = {params[0]: Opaque("cls")}
     for nm in params[1:]:
         env[nm] = Opaque("formula")
-    # `from .rule import Rule` inside the function must not shadow the model of the keyword constants
-    body = [st for st in node.body if not (isinstance(st, ast.ImportFrom) and any(a.name == "Rule" for a in st.names))]
     try:
-        ex.block(body, env)
+        ex.block(list(node.body), env)
     except _Return:
         pass
     except (Raised, Internal) as err:
@@ -185,28 +190,36 @@ def x1_format_infix(check: Check) -> None:
         raise AnalysisError(str(u)) from None
 
     def alternation(pat: Any) -> list[str] | None:
-        """Symbols of `(a|b|c)` built as an f-string / concatenation around "|".join(escaped symbols)."""
-        found: list[Any] = []
+        """The symbols of a pattern `(a|b|c)` (or `a|b|c`), read from the parsed regular expression: every branch must be a literal."""
+        if not isinstance(pat, str):
+            return None
+        try:
+            import re._parser as _sre  # type: ignore[import-not-found]
 
-        def rec(x: Any) -> None:
-            if isinstance(x, tuple) and x and x[0] == "joined":
-                found.append(x)
-            elif isinstance(x, FString):
-                for y in x.parts:
-                    rec(y)
-            elif isinstance(x, (tuple, list)):
-                for y in x:
-                    rec(y)
-
-        rec(pat)
-        for j in found:
-            if j[1] == "|":
-                out = []
-                for it in j[2]:
-                    out.append(it[1] if isinstance(it, tuple) and it and it[0] == "escaped" else it)
-                if all(isinstance(o, str) for o in out):
-                    return out
-        return None
+            tree = _sre.parse(pat)
+        except Exception:  # noqa: BLE001
+            return None
+        items = list(tree)
+        if len(items) == 1 and str(items[0][0]) == "SUBPATTERN":
+            items = list(items[0][1][3])
+        if len(items) == 1 and str(items[0][0]) == "BRANCH":
+            branches = [list(b) for b in items[0][1][1]]
+        elif len(items) == 1 and str(items[0][0]) == "IN":
+            branches = [[x] for x in items[0][1]]  # single characters folded into a class by the parser
+        else:
+            branches = [items]
+        out: list[str] = []
+        for b in branches:
+            txt = ""
+            for op_, arg_ in b:
+                if str(op_) == "LITERAL":
+                    txt += chr(arg_)
+                elif str(op_) == "IN" and len(branches) > 1 and all(str(o2) == "LITERAL" for o2, _ in arg_):
+                    return None
+                else:
+                    return None
+            out.append(txt)
+        return out
 
     alts = [a for a in (alternation(pt) for pt in seen.get("patterns", [])) if a is not None]
     if not alts:
